@@ -6,7 +6,7 @@
     return as given and are about everything after parsing — the comparison, the closures, the two functions. *)
 From Coq Require Import ZArith List Bool.
 From Low Require Import Lib.Lex Model.Semver Model.Vers Spec.VersSpec Spec.VersPrint
-  Proofs.SemverOrder Proofs.VersProofs Proofs.SemverNoPanic Proofs.SemverPrintParse Proofs.SemverRangeParse Proofs.SemverParseInv.
+  Proofs.SemverOrder Proofs.VersProofs Proofs.SemverNoPanic Proofs.SemverPrintParse Proofs.SemverRangeParse Proofs.SemverParseInv Proofs.SemverWildcard.
 Import ListNotations.
 Open Scope Z_scope.
 
@@ -179,6 +179,39 @@ Theorem X01_Check_canonical : forall dbg v gs, wf_version v = true -> sgroups_ok
   Check dbg (version_string v) (map group_string gs) = Some (range_holds (strip gs) v).
 Proof. exact Check_print. Qed.
 Print Assumptions X01_Check_canonical.
+
+(** WIDENING — the wildcard rules of the modelled range parser (the table in range.go), for canonical wildcard
+    comparators in every operator spelling [s] of every comparator [c]; [wild_expansion c lo hi] is
+      >= : [>= lo]   > : [>= hi]   < : [< lo]   <= : [< hi]   = : [>= lo; < hi]   != : [< lo; >= hi].
+    The numbers are bounded by Go's int (strconv.Atoi, i+1 without overflow): M + 1 < 2^63. *)
+Theorem X01_wildcard_minor : forall c s M, In s (op_spellings c) -> 0 <= M -> M + 1 < 2 ^ 63 ->
+  range_groups (s ++ dec_nonneg M ++ [46; 120]) = Ok [wild_expansion c (plain M 0 0) (plain (M + 1) 0 0)].
+Proof. exact wildcard_minor. Qed.
+Print Assumptions X01_wildcard_minor.
+
+Theorem X01_wildcard_patch : forall c s M m, In s (op_spellings c) -> 0 <= M < 2 ^ 64 -> 0 <= m -> m + 1 < 2 ^ 63 ->
+  range_groups (s ++ dec_nonneg M ++ [46] ++ dec_nonneg m ++ [46; 120]) = Ok [wild_expansion c (plain M m 0) (plain M (m + 1) 0)].
+Proof. exact wildcard_patch. Qed.
+Print Assumptions X01_wildcard_patch.
+
+(** the library's quirk, as it is:  M.x.x  does not mean  M.x  but  >= M.0.0 < M.1.0 *)
+Theorem X01_wildcard_xx_quirk : forall c s M, In s (op_spellings c) -> 0 <= M < 2 ^ 64 ->
+  range_groups (s ++ dec_nonneg M ++ [46; 120; 46; 120]) = Ok [wild_expansion c (plain M 0 0) (plain M 1 0)].
+Proof. exact wildcard_xx. Qed.
+Print Assumptions X01_wildcard_xx_quirk.
+
+Theorem X01_wildcard_meaning : forall lo hi v,
+  range_holds [wild_expansion CEQ lo hi] v = true <-> prec v lo <> Lt /\ prec v hi = Lt.
+Proof. exact wild_eq_holds. Qed.
+Print Assumptions X01_wildcard_meaning.
+
+Example X01_wildcard_nonvacuous :
+  In [] (op_spellings CEQ) /\ In [33; 61] (op_spellings CNE) /\
+  range_groups [49; 46; 120] = Ok [[(CGE, plain 1 0 0); (CLT, plain 2 0 0)]] /\
+  range_groups [33; 61; 49; 46; 50; 46; 120] = Ok [[(CLT, plain 1 2 0); (CGE, plain 1 3 0)]] /\
+  IsCompatible V115 [V1x] = Some true /\ IsCompatible V115 [[49; 46; 120; 46; 120]] = Some false /\
+  IsCompatible [49; 46; 48; 46; 53] [[49; 46; 120; 46; 120]] = Some true.
+Proof. vm_compute. intuition congruence. Qed.
 
 (** non-vacuity of the canonical-syntax theorems: 1.2.3-alpha.1+b7 against  ">1.0.0 <2.0.0-0 || !=4.2.1 ==1.2.3-alpha.1" *)
 Definition x01_v : Version :=
